@@ -153,7 +153,7 @@ def runSection (r : Report) (s : Section) : Report := Id.run do
   r := r.addCover s!"{mode}-sections"
   if kvStr s.cfg "herd" "0" = "1" then r := r.addCover s!"{mode}-sections-herd"
   if mode = "rm" && kvStr s.cfg "sfd" "-" ≠ "-" then r := r.addCover "rm-sections-delayed-flight-entry"
-  if via = "cacheNode.Take" && kvStr s.cfg "dst" "0" = "1" then r := r.addCover "cacheNode.Take-sections-destination-reused-and-overwritten"
+  if via ≠ "" && kvStr s.cfg "dst" "0" = "1" then r := r.addCover s!"{via}-sections-destination-reused-and-overwritten"
   for o in h do
     r := r.addCover s!"{mode}-calls"
     -- outcome kinds of the user function, per object / user
